@@ -300,6 +300,9 @@ fn nontrivial(changed: bool, touches: &[Touch]) -> bool {
 }
 
 pub fn check(c: &Case) -> Verdict {
+    if std::env::var_os("C08_TRACE").is_some() {
+        trace(c);
+    }
     let mode = if c.stepwise { Mode::Stepwise } else { Mode::Walk };
     // 1. where does the history end? (the property speaks about operations that report success)
     let mut ops: &[Op] = &c.ops;
@@ -372,14 +375,15 @@ pub fn check(c: &Case) -> Verdict {
 /// If no prefix fails on its own (the failure needs the walk, the stepwise rounds or a third pass), the operation that owns
 /// the undo step crossed last is named instead and the key says so.
 fn localise(c: &Case, ops: &[Op], f: Failure) -> Verdict {
-    for p in 1..=ops.len() {
-        if let Run::Failed(pf) = run_core(&c.doc, &ops[..p], &[], Mode::Stairs) {
-            let culprit = &ops[p - 1];
-            return Verdict::fail(
-                format!("{}|culprit={}", pf.class, culprit.kind()),
-                format!("shortest failing prefix: {p} of {} operation(s), last one {:?}; {} (the case itself failed with {}: {})", ops.len(), culprit, pf.msg, f.class, f.msg),
-            );
+    // harness-made atomic groups hide which operation owns a step: look at the history without them first
+    let flat: Vec<Op> = ops.iter().filter(|o| !matches!(o, Op::BeginAtomic | Op::EndAtomic { .. })).cloned().collect();
+    if flat.len() != ops.len() {
+        if let Some(v) = scan_prefixes(c, &flat, &f, " (atomic group markers removed)") {
+            return v;
         }
+    }
+    if let Some(v) = scan_prefixes(c, ops, &f, "") {
+        return v;
     }
     let culprit = f.owner.and_then(|i| ops.get(i));
     let kind = culprit.map(|o| o.kind()).unwrap_or_else(|| "?".into());
@@ -388,4 +392,210 @@ fn localise(c: &Case, ops: &[Op], f: Failure) -> Verdict {
         format!("{}|culprit={}{}", f.class, kind, if c.stepwise { "" } else { "|only_in_walk" }),
         format!("no prefix fails the staircase rounds on a fresh editor; owner of the step crossed last: {:?}; {}", culprit, f.msg),
     )
+}
+
+fn scan_prefixes(c: &Case, ops: &[Op], f: &Failure, note: &str) -> Option<Verdict> {
+    for p in 1..=ops.len() {
+        match run_core(&c.doc, &ops[..p], &[], Mode::Stairs) {
+            Run::Failed(pf) => {
+                // a step that returns Err or panics names its own operation; a wrong document names the operation that made
+                // the prefix fail
+                let own = if pf.class.ends_with("_err") || pf.class.ends_with("_panic") { pf.owner.filter(|i| *i < p) } else { None };
+                let culprit = &ops[own.unwrap_or(p - 1)];
+                return Some(Verdict::fail(
+                    format!("{}|culprit={}", pf.class, culprit.kind()),
+                    format!(
+                        "shortest failing prefix{note}: {p} of {} operation(s) (last one {:?}), culprit {:?}; {} (the case itself failed with {}: {})",
+                        ops.len(),
+                        ops[p - 1],
+                        culprit,
+                        pf.msg,
+                        f.class,
+                        f.msg
+                    ),
+                ));
+            }
+            Run::Ended { .. } => return None, // without the group markers an operation behaves differently: not comparable
+            Run::Held(_) => {}
+        }
+    }
+    None
+}
+
+/// Simpler candidates for the engine's greedy minimiser (tried after proptest's own shrinking).
+pub fn minimize(c: &Case) -> Vec<Case> {
+    let mut out = Vec::new();
+    for i in 0..c.ops.len() {
+        let mut n = c.clone();
+        n.ops.remove(i);
+        if !n.ops.is_empty() {
+            out.push(n);
+        }
+    }
+    if !c.walk.is_empty() {
+        out.push(Case { walk: Vec::new(), ..c.clone() });
+    }
+    if c.stepwise {
+        out.push(Case { stepwise: false, ..c.clone() });
+    }
+    let d = &c.doc;
+    let with = |f: &dyn Fn(&mut DocM)| {
+        let mut n = c.clone();
+        f(&mut n.doc);
+        n
+    };
+    if d.layers.len() > 1 {
+        for j in 0..d.layers.len() {
+            out.push(with(&|d| {
+                d.layers.remove(j);
+            }));
+        }
+    }
+    for j in 0..d.layers.len() {
+        let l = &d.layers[j];
+        for k in 0..l.cells.len() {
+            out.push(with(&|d| {
+                d.layers[j].cells.remove(k);
+            }));
+        }
+        if l.locked || l.pos_locked || l.alpha_locked || !l.visible || l.mode != 0 || l.role != 0 || l.transparency != 0 || l.default_font_page != 0 {
+            out.push(with(&|d| {
+                let l = &mut d.layers[j];
+                l.locked = false;
+                l.pos_locked = false;
+                l.alpha_locked = false;
+                l.visible = true;
+                l.mode = 0;
+                l.role = 0;
+                l.transparency = 0;
+                l.default_font_page = 0;
+            }));
+        }
+        for (name, on) in [("locked", l.locked), ("pos", l.pos_locked), ("alock", l.alpha_locked), ("hidden", !l.visible), ("alpha", l.alpha), ("storage", l.storage != 0), ("off", l.ox != 0 || l.oy != 0)] {
+            if on {
+                out.push(with(&|d| {
+                    let l = &mut d.layers[j];
+                    match name {
+                        "locked" => l.locked = false,
+                        "pos" => l.pos_locked = false,
+                        "alock" => l.alpha_locked = false,
+                        "hidden" => l.visible = true,
+                        "alpha" => l.alpha = false,
+                        "storage" => l.storage = 0,
+                        _ => {
+                            l.ox = 0;
+                            l.oy = 0;
+                        }
+                    }
+                }));
+            }
+        }
+    }
+    if d.sel.is_some() {
+        out.push(with(&|d| d.sel = None));
+    }
+    if !d.mask.is_empty() {
+        out.push(with(&|d| d.mask.clear()));
+    }
+    if d.sauce.is_some() {
+        out.push(with(&|d| d.sauce = None));
+    }
+    if !d.fonts.is_empty() {
+        out.push(with(&|d| d.fonts.clear()));
+    }
+    if d.palette != crate::model::PalM::Dos {
+        out.push(with(&|d| d.palette = crate::model::PalM::Dos));
+    }
+    if d.ice != 0 || d.pal_mode != 1 || d.font_mode != 0 || d.buffer_type != 0 || d.mirror || d.caret_font != 0 {
+        out.push(with(&|d| {
+            d.ice = 0;
+            d.pal_mode = 1;
+            d.font_mode = 0;
+            d.buffer_type = 0;
+            d.mirror = false;
+            d.caret_font = 0;
+        }));
+    }
+    if (d.w, d.h) != (12, 8) {
+        out.push(with(&|d| {
+            d.w = 12;
+            d.h = 8;
+        }));
+    }
+    out
+}
+
+/// Debug aid for replaying a case by hand (`C08_TRACE=1 c08 --replay file`): prints every layer after each operation and each
+/// undo / redo step of one plain round.
+pub fn trace(c: &Case) {
+    fn dump(st: &EditState, what: &str) {
+        use icy_engine::TextPane;
+        println!("--- {what}: stack={} cur={:?} size={:?} sel={:?}", st.undo_stack_len(), st.get_current_layer().ok(), (st.get_buffer().get_width(), st.get_buffer().get_height()), st.get_selection());
+        for (i, l) in st.get_buffer().layers.iter().enumerate() {
+            println!(
+                "  layer {i} '{}' size={}x{} off={:?} rows_alloc={} vis={} lock={} alpha={} role={:?} row_lens={:?}",
+                l.properties.title,
+                l.get_width(),
+                l.get_height(),
+                (l.get_offset().x, l.get_offset().y),
+                l.lines.len(),
+                l.properties.is_visible,
+                l.properties.is_locked,
+                l.properties.has_alpha_channel,
+                l.role,
+                l.lines.iter().map(|x| x.chars.len()).collect::<Vec<_>>()
+            );
+            for y in 0..l.get_height().min(40) {
+                let row: String = (0..l.get_width().min(80))
+                    .map(|x| {
+                        let ch = l.get_char((x, y));
+                        if !ch.is_visible() {
+                            '.'
+                        } else if (ch.ch as u32) < 33 || (ch.ch as u32) > 126 {
+                            '#'
+                        } else {
+                            ch.ch
+                        }
+                    })
+                    .collect();
+                println!("    {row}");
+            }
+        }
+    }
+    let mut st = c.doc.build();
+    let mut it = Interp::default();
+    let len0 = st.undo_stack_len();
+    dump(&st, "initial");
+    for op in &c.ops {
+        let r = guarded(|| it.apply(&mut st, op));
+        match r {
+            Ok((Ok(()), _)) => dump(&st, &format!("after {op:?}")),
+            Ok((Err(e), _)) => {
+                println!("--- {op:?} returned Err: {e} (history ends)");
+                break;
+            }
+            Err((_, m)) => {
+                println!("--- {op:?} panicked: {m} (history ends)");
+                return;
+            }
+        }
+    }
+    it.close_all();
+    let g = st.undo_stack_len() - len0;
+    for i in 0..g {
+        let d = st.undo_description();
+        let r = guarded(|| st.undo());
+        dump(&st, &format!("undo {} ({d:?}) -> {r:?}", i + 1));
+        if !matches!(r, Ok(Ok(()))) {
+            return;
+        }
+    }
+    for i in 0..g {
+        let d = st.redo_description();
+        let r = guarded(|| st.redo());
+        dump(&st, &format!("redo {} ({d:?}) -> {r:?}", i + 1));
+        if !matches!(r, Ok(Ok(()))) {
+            return;
+        }
+    }
 }
